@@ -141,6 +141,12 @@ def add_subtract_with_compare(
     input_labels_a = list(input_labels_a)
     input_labels_b = list(input_labels_b)
 
+    # bring both numbers to little-endian first, so that zero padding
+    # extends the most significant end.
+    if big_endian:
+        input_labels_a.reverse()
+        input_labels_b.reverse()
+
     always_false = add_gate_from_tt(
         circuit, input_labels_a[0], input_labels_b[0], "0000"
     )
@@ -152,10 +158,6 @@ def add_subtract_with_compare(
     validate_equal_sizes(input_labels_a, input_labels_b)
 
     n = len(input_labels_a)
-
-    if big_endian:
-        input_labels_a.reverse()
-        input_labels_b.reverse()
 
     res = [PLACEHOLDER_STR] * n
     bal = [PLACEHOLDER_STR] * n
